@@ -335,6 +335,7 @@ func enumerateCells(log []wireMsg, c sim.ID, ns string, only []string, maxLeaves
 		}
 		// leaf operators; leaves are grouped by normalised path, first and last instance taken
 		groups := map[string][]cbor.Leaf{}
+		allLeaves := tr.Leaves()
 		var order []string
 		tr.Walk(func(l cbor.Leaf) {
 			if !l.Node.IsLeaf() && !(l.Node.Major == 4 && len(l.Node.Kids) > 0) {
@@ -405,6 +406,14 @@ func enumerateCells(log []wireMsg, c sim.ID, ns string, only []string, maxLeaves
 						}
 					}
 				}
+				// swap with a sibling field: the nearest following leaf of the same kind and
+				// length whose path differs in exactly one map key (GammaU <-> GammaV): two
+				// fields altered together with offsetting effect on any check that sums them
+				if pi == 0 && (n.Major == 2 || n.Major == 3) && len(n.Bytes) > 0 {
+					if sib, ok := siblingLeaf(allLeaves, l); ok {
+						add(tamper{CID: w.CID, To: to, Path: l.Path, Op: "swapleaf", Arg: sib.Path}, "swapsibling:"+cbor.NormPath(sib.Path))
+					}
+				}
 				// swap with another leaf of the same kind in the same message
 				if len(ls) > 1 && pi == 0 && string(ls[0].Node.Bytes) != string(ls[len(ls)-1].Node.Bytes) {
 					add(tamper{CID: w.CID, To: to, Path: ls[0].Path, Op: "swapleaf", Arg: ls[len(ls)-1].Path}, "swapleaf")
@@ -414,6 +423,40 @@ func enumerateCells(log []wireMsg, c sim.ID, ns string, only []string, maxLeaves
 	}
 	sort.SliceStable(cells, func(i, j int) bool { return cells[i].label < cells[j].label })
 	return cells
+}
+
+// siblingLeaf finds the nearest following leaf of the same major type and byte
+// length whose path has the same shape and differs from l's in exactly one map key.
+func siblingLeaf(all []cbor.Leaf, l cbor.Leaf) (cbor.Leaf, bool) {
+	split := func(p string) []string { return strings.FieldsFunc(p, func(r rune) bool { return r == '.' }) }
+	a := split(l.Path)
+	seen := false
+	for _, o := range all {
+		if o.Path == l.Path {
+			seen = true
+			continue
+		}
+		if !seen || o.Node.Major != l.Node.Major || len(o.Node.Bytes) != len(l.Node.Bytes) || string(o.Node.Bytes) == string(l.Node.Bytes) {
+			continue
+		}
+		b := split(o.Path)
+		if len(a) != len(b) {
+			continue
+		}
+		diff := 0
+		for i := range a {
+			if a[i] != b[i] {
+				diff++
+				if strings.ContainsAny(a[i], "[{") || strings.ContainsAny(b[i], "[{") {
+					diff = 99 // an array position, not a field name (that is the swapleaf operator)
+				}
+			}
+		}
+		if diff == 1 {
+			return o, true
+		}
+	}
+	return cbor.Leaf{}, false
 }
 
 func kindClass(n *cbor.Node) string {
